@@ -88,25 +88,29 @@ def cmd_run(names, tier):
     for name in names:
         d = os.path.join(base, name)
         meta = json.load(open(os.path.join(d, "meta.json")))
-        prop = meta["property"]
-        tmp, wt = scratch_copy(os.path.join(d, "patch.diff"))
-        t0 = time.time()
-        try:
-            env = dict(os.environ, IODATA_REPO=wt, VERIF_EVIDENCE_DIR=os.path.join(tmp, "ev"),
-                       VERIF_REPLAY_DIR=os.path.join(tmp, "replay"))
-            res = subprocess.run([os.path.join(ROOT, "check"), prop, "--tier", tier], env=env,
-                                 capture_output=True, text=True, timeout=7200)
-        finally:
-            remove_scratch(tmp)
-        viol = [l for l in res.stdout.splitlines() if l.startswith("VIOLATION")]
-        buckets = [l.strip()[:220] for l in res.stdout.splitlines() if l.startswith("  bucket=")]
-        status = "caught" if res.returncode == 1 and viol else f"MISSED (exit {res.returncode})"
-        results.setdefault(name, {})[tier] = {
-            "property": prop, "status": status, "buckets": buckets[:3], "wall_s": round(time.time() - t0, 1),
-            "cmd": f"IODATA_REPO=<scratch worktree with patch> ./check {prop} --tier {tier}",
-        }
-        print(f"{name:40s} {prop} {tier:8s} {status}  {buckets[:1]}")
-        json.dump(results, open(respath, "w"), indent=1, sort_keys=True)
+        # "also_checked_by" (added when triaging): properties whose statement the change breaks as
+        # well; their checks are run too and the outcome is recorded per property
+        props = [meta["property"]] + list(meta.get("also_checked_by", []))
+        for prop in props:
+            tmp, wt = scratch_copy(os.path.join(d, "patch.diff"))
+            t0 = time.time()
+            try:
+                env = dict(os.environ, IODATA_REPO=wt, VERIF_EVIDENCE_DIR=os.path.join(tmp, "ev"),
+                           VERIF_REPLAY_DIR=os.path.join(tmp, "replay"))
+                res = subprocess.run([os.path.join(ROOT, "check"), prop, "--tier", tier], env=env,
+                                     capture_output=True, text=True, timeout=7200)
+            finally:
+                remove_scratch(tmp)
+            viol = [l for l in res.stdout.splitlines() if l.startswith("VIOLATION")]
+            buckets = [l.strip()[:220] for l in res.stdout.splitlines() if l.startswith("  bucket=")]
+            status = "caught" if res.returncode == 1 and viol else f"MISSED (exit {res.returncode})"
+            key = tier if prop == meta["property"] else f"{tier}:{prop}"
+            results.setdefault(name, {})[key] = {
+                "property": prop, "status": status, "buckets": buckets[:3], "wall_s": round(time.time() - t0, 1),
+                "cmd": f"IODATA_REPO=<scratch worktree with patch> ./check {prop} --tier {tier}",
+            }
+            print(f"{name:40s} {prop} {tier:8s} {status}  {buckets[:1]}")
+            json.dump(results, open(respath, "w"), indent=1, sort_keys=True)
     return 0
 
 
